@@ -25,17 +25,21 @@ claim("C08",
       design_ref="DESIGN.md §5 C08")
 
 claim("C16",
-      text="Proved in Lean 4 for all trees of the model of delphin.derivation: the dictionary round trip at full strength "
-           "(head mark and type on any node including the top); that the explicit stack of _from_string, run on the match "
-           "list of a serialized tree at any indentation (UDF and UDX), rebuilds the tree exactly incl. entity decoding, "
-           "integer parsing and token recovery; that re-serialization reproduces the text; that terminals, preterminals "
-           "and internals partition the nodes. The end-to-end from_string(to_udf(t)) theorem is proved relative to one "
-           "named lexical hypothesis (hscan), which the correspondence run compares with the real _udf_re.finditer match "
-           "list on every generated text.",
-      note="hscan (the character-level regex emulation yields the expected match list on serialized text) is not proved, only "
-           "compared on generated texts. Scores are carried as printed text; '{:g}', parent pointers, is_head() and object "
-           "identity are checked by the direct oracle only. WF/DictOK/Shape restrict to what the formats can express. "
-           "Trusted: Lean kernel + 3 standard axioms, the hand-written model, the Python harness and oracle.",
+      text="Proved in Lean 4 (16 theorems) for all trees of the model of delphin.derivation: from_string(to_udf(t)) returns the "
+           "tree (UDX) or the tree without head marks and types (plain UDF) for every WF tree accepted by the top check, every "
+           "indentation — end to end, including the character-level emulation of _udf_re.finditer (terminal alternative first, "
+           "node header, branch end, root) proved to yield exactly the expected match list on serialized text (scan_serialized), "
+           "the explicit stack of _from_string, entity decoding, integer parsing and token recovery; parsing text written at one "
+           "indentation and writing it at another gives the original's text (udf_text_roundtrip); the dictionary round trip at "
+           "full strength (head mark and type on any node including the top) and its stability; terminals, preterminals and "
+           "internals partition the nodes; in the rebuilt tree every terminal and non-root node names as its parent the node it "
+           "was appended to (parent_spec); a derivation returned by from_dict has no root below the top when every entry below "
+           "the top carries an id.",
+      note="The model (incl. the regex emulation) is tied to the code only by the correspondence run, which compares the driver's "
+           "scan with the real _udf_re.finditer match list, and fromString/toDict/fromDict/navigation lists with the real "
+           "functions, on every generated text. Scores are carried as printed text; '{:g}', non-ASCII int()/float() spellings, "
+           "negative token ids, object identity, is_head() and parent pointers set by _from_dict are checked by the direct oracle "
+           "only. WF/DictOK/Shape restrict to what the formats can express.",
       technique="Lean 4 proof over executable model + differential correspondence with the Python implementation",
       design_ref="DESIGN.md §5 C16")
 
@@ -89,19 +93,22 @@ claim("C04",
       design_ref="DESIGN.md §5 C04")
 
 claim("C05",
-      text="Proved for the Lean model of eds.from_mrs (_mrs_get_top, _mrs_args_to_basic_deps, _mrs_to_nodes, "
+      text="Proved for the Lean model of eds.from_mrs (17 theorems; _mrs_get_top, _mrs_args_to_basic_deps, _mrs_to_nodes, "
            "find_predicate_modifiers, make_ids_unique, on the shared model of MRS/_uniquify_ids/scope.representatives/"
-           "_connected_components), for all MRSs with complete intrinsic variables and no ARG0 of sort '_'/'q': one node per "
-           "predication in order with its data (any configuration, incl. a user-supplied predicate-modifier function); every "
-           "edge ends at a node and is a BV edge quantifier→quantifiee, an edge justified by an argument (intrinsic variable, "
-           "label, or hcons-constrained hole), or, with predicate modifiers on, an ARG1 edge between two same-label predications "
-           "not connected in the graph without modifiers; a top, when present, is a node; EP ids and, with unique_ids=False, "
-           "node ids are pairwise distinct. Totality is false of the code as stated (F08: decide-checked counter-example, known finding).",
-      note="Not proved, checked by the direct oracle and the model/implementation comparison only: uniqueness of ids after "
-           "make_ids_unique (unique_ids=True), totality and absence of warnings on well-formed input, 'exactly one BV edge' "
-           "completeness, native/JSON/PENMAN round trip of the result. Assumed: input space = is_well_formed plus at most one "
-           "quantifier per variable; canonical variable numerals; default representative_priority; a user function is represented "
-           "by the mapping it returns; Python set order in make_ids_unique for shared ARG0s is outside the model ('unmodelled').",
+           "_connected_components): one node per predication in order with its data (any configuration, incl. a user-supplied "
+           "predicate-modifier function); every edge ends at a node and is a BV edge quantifier→quantifiee, an edge justified "
+           "by an argument (intrinsic variable, label, or hcons-constrained hole), or, with predicate modifiers on, an ARG1 edge "
+           "between two same-label predications not connected in the graph without modifiers; a top, when present, is a node; "
+           "node ids are pairwise distinct for both unique_ids settings (LKB-style ids; the unique_ids=True result is an "
+           "injective renaming of the other); a quantifier of a quantified predication has exactly one BV edge, to that "
+           "predication; totality: no error and no warning in all four configurations for well-formed input in which every "
+           "selected scope has a representative (HasReps) — without HasReps totality is false of the code (F08: decide-checked "
+           "counter-example, known finding); the result satisfies the native EDS codec's expressibility precondition.",
+      note="Hypotheses forced and shown necessary by decide-checked counter-examples: NoReserved (no ARG0 of sort '_'/'q'), the "
+           "intrinsic-variable property, at most one quantifier per variable (for 'exactly one BV edge'), HasReps (for "
+           "totality). Input space of the oracle = is_well_formed plus at most one quantifier per variable, variables of an "
+           "alphabetic sort. Native/JSON/PENMAN round trip of the result: direct oracle only. A user function is represented by "
+           "the mapping it returns.",
       technique="Lean 4 proof over executable model + differential correspondence with the Python implementation",
       design_ref="DESIGN.md §5 C05")
 
@@ -249,3 +256,21 @@ claim("C02",
            "text stability is not demanded, graph equality each round is), ASCII case mapping.",
       technique="Lean 4 proof over executable model + differential correspondence with the Python implementation",
       design_ref="DESIGN.md §5 C02")
+
+claim("C15",
+      text="Lean 4 theorems (20) over a model of delphin.tdl/tfs prove, for all inputs, the token-level round trip of the whole "
+           "term grammar: parse (toks x ++ rest) = ok (canon x, rest) for nested conjunctions, AVMs with dotted paths, cons "
+           "lists (closed, open, dotted, empty), diff lists, coreferences, strings, regexes and docstrings; the round trip of "
+           "every top-level item kind (type definitions, addenda incl. docstring-only, lexical rules with affix patterns, letter "
+           "sets and wild cards at character level, environments, includes, comments) and of arbitrary item sequences with "
+           "nested environments; that the second formatting yields the same tokens outside finding F44 (known: a one-term "
+           "Conjunction wrapper around a one-feature AVM, decide-checked counter-example); docstring escape idempotence and "
+           "exact lexer scanning for every docstring text and indentation; case-insensitive path access; invariance of the "
+           "expanded feature list.",
+      note="Proved at token level for unbounded but unspecified parser fuel. Not modelled: line layout/widths, the regex lexer for "
+           "non-docstring tokens, tabs and other white space in docstrings, non-ASCII case folding; these are tied by comparing, "
+           "on ~2.7k generated cases per quick run, the real lexer's tokens on the real formatter's text, the real parse results, "
+           "the second format, expanded features and constructor results, and parser errors on mutated token streams. Text layout "
+           "stability is decided by a direct oracle. Five defects found by this check were repaired in /repo (F41-F43, F45, F46).",
+      technique="Lean 4 proof over executable model + differential correspondence with the Python implementation",
+      design_ref="DESIGN.md §5 C15")
